@@ -1,8 +1,8 @@
 SPECIFICATION Spec
 CONSTANTS PMax = 12
           NR = 6
-          Family = "free"
-          NE = 5
+          Family = "jitter"
+          NE = 3
 INVARIANT SelfPerfect
 INVARIANT ContNested
 INVARIANT Export
